@@ -14,7 +14,13 @@ import (
 // C01: data values are inert — same element/attribute-name skeleton as with a harmless word,
 // and mustaches inside data are never evaluated.
 
-var c01Alphabet = []string{"<", ">", "\"", "'", "&", ";", "&amp;", "&lt;", "&#", "{{", "}}", "secret", "<b>", "</p>", " v-if=", "x"}
+var c01Alphabet = []string{"<", ">", "\"", "'", "&", ";", "&amp;", "&lt;", "&#", "{{", "}}", "secret", "<b>", "</p>", " v-if=", "x", "<!--", "-->", "<?", "<!"}
+
+// constructs in which one source node is evaluated more than once: they guard against values
+// being taken for template source a second time, and are swept with the tokens that matter for
+// that (the full alphabet is swept in the other constructs)
+var c01Reeval = map[string]bool{"slot2": true, "slot2if": true, "slot2else": true, "slotloopif": true, "comp2if": true, "again": true, "increq": true, "incwrap": true, "increqslot": true, "slot2inc": true, "slot2incnamed": true, "forinc": true}
+var c01ReevalTokens = []string{"{{", "}}", "secret", "<b>", "\"", "&amp;", "<!--"}
 
 const c01Canary = "CANARY9"
 const c01Harmless = "zqx"
@@ -348,7 +354,7 @@ func init() {
 	core.Register(&core.Check{
 		ID:    "C01",
 		Level: "exploration",
-		Rule: "all token strings up to the bound over the alphabet " + fmt.Sprintf("%q", c01Alphabet) + " plus 7 non-string values, in every sink (text, v-text, interpolated attr, :attr, v-bind:attr) x static neighbourhood (6) x enclosing construct (12); " +
+		Rule: "all token strings up to the bound over the alphabet " + fmt.Sprintf("%q", c01Alphabet) + " plus 7 non-string values, in every sink (text, v-text, interpolated attr, :attr, v-bind:attr) x static neighbourhood (6) x enclosing construct (" + fmt.Sprint(len(c01Constructs)) + ": 12 single-evaluation constructs swept with the full alphabet, 12 constructs in which one source node is evaluated repeatedly - slot content used twice / in a loop, cached components, template-rooted components, a second render - swept with the 7 tokens that matter for repeated interpolation); " +
 			"oracle: HTML5 re-parse has the same element/attribute-name skeleton as with the value 'zqx', and a canary bound to `secret` never appears. non-trivial = value contains one of < > \" ' & {; distinct = distinct (context, token vector)",
 		Bounds:      map[string]string{"quick": "token strings of length <= 3 in all contexts; text sink inside 12 special host elements (raw-text, RCDATA, noscript in both scripting modes, select, table, svg) with the host's end tag added to the alphabet, length <= 3", "thorough": "token strings of length <= 3 in all contexts, length 4 in the N0 neighbourhood of every sink and construct"},
 		Assumptions: []string{"golang.org/x/net/html is a faithful HTML5 parser", "v-html sinks and script/style bodies are exempt and never used as sinks"},
@@ -386,12 +392,36 @@ func init() {
 			tokenStrings(c01Alphabet, n0, func(tok []int) {
 				val := joinTokens(c01Alphabet, tok)
 				ctxs(func(s, n, c string) {
+					if c01Reeval[c] {
+						return
+					}
 					if len(tok) > full {
 						if n != "N0" {
 							return
 						}
 					}
 					emit(&c01Case{Sink: s, Neigh: n, Construct: c, Tokens: append([]int(nil), tok...), Value: val})
+				})
+			})
+			var ridx []int
+			for _, t := range c01ReevalTokens {
+				for i, a := range c01Alphabet {
+					if a == t {
+						ridx = append(ridx, i)
+					}
+				}
+			}
+			tokenStrings(c01ReevalTokens, n0, func(rt []int) {
+				tok := make([]int, len(rt))
+				for i, r := range rt {
+					tok[i] = ridx[r]
+				}
+				val := joinTokens(c01Alphabet, tok)
+				ctxs(func(s, n, c string) {
+					if !c01Reeval[c] || (len(tok) > full && n != "N0") {
+						return
+					}
+					emit(&c01Case{Sink: s, Neigh: n, Construct: c, Tokens: tok, Value: val})
 				})
 			})
 		},
